@@ -11,9 +11,8 @@ R == "on_rotation_change"
 S == "on_scale_change"
 
 Subs_All == [L -> (SUBSET Ev) \ {{}}]
-\* first listener maps everything or a single event, second one two events or one: every event is seen
-\* with 0, 1 and 2 interested listeners
-Subs_Some == {s \in Subs_All : s["l1"] \in {Ev, {R}, {P}} /\ s["l2"] \in {{R, S}, {P, R}, {S}}}
+\* every event is seen with 0, 1 and 2 interested listeners
+Subs_Some == {s \in Subs_All : s["l1"] \in {Ev, {R}} /\ s["l2"] \in {{R, S}, {P}}}
 Subs_Two == {s \in Subs_All : s["l1"] = Ev /\ s["l2"] \in {{R, S}, {P}}}
 
 Arg(t, p) == {Dflt} \cup (IF Scalar(t, p) THEN {N(i) : i \in Rot} ELSE VecVals)
@@ -24,18 +23,17 @@ CtorOf(t) == {a \in [Props -> AllVals \cup {Dflt}] :
                    \/ \A p \in Props : a[p] # Dflt
                    \/ \A p \in Props : (a[p] # Dflt) <=> (p = "rotation")
                    \/ \A p \in Props : (a[p] = Dflt) <=> (p = "rotation")}
-Ctor_Some == {c \in [T -> UNION {CtorOf(t) : t \in T}] : \A t \in T : c[t] \in CtorOf(t)}
+Ctor_Every == {c \in [T -> UNION {CtorOf(t) : t \in T}] : \A t \in T : c[t] \in CtorOf(t)}
+\* the same four shapes, every rotation, one vector per vector argument
+Ctor_Some == {c \in Ctor_Every : \A t \in T : c[t]["position"] \in {Dflt, V("va")} /\ c[t]["scale"] \in {Dflt, V("vb")}}
 Ctor_None == {[t \in T |-> [p \in Props |-> Dflt]]}
-\* one choice per "shape" of the call, values picked deterministically (smallest instance for the two-transform graphs)
-Ctor_Shapes == {c \in Ctor_Some : \A t \in T, p \in Props :
-                   c[t][p] \in {Dflt, IF Scalar(t, p) THEN N(370) ELSE V("va")}}
+\* one choice per shape of the call, the same shape for all transforms, fixed values (two-transform graphs)
+Ctor_Shapes == {c \in Ctor_Every : /\ \A t \in T, p \in Props : c[t][p] \in {Dflt, IF Scalar(t, p) THEN N(370) ELSE V("va")}
+                                   /\ \A t, u \in T, p \in Props : (c[t][p] = Dflt) <=> (c[u][p] = Dflt)}
 
 Reg_None == {[t \in T |-> {}]}
 Reg_Full == {[t \in T |-> L]}
 Reg_All == [T -> SUBSET L]
-\* two transforms with different listener sets that overlap: one listener sits on both
-First == CHOOSE t \in T : \A u \in T : t <= u   \* not evaluated; see Reg_Cross
-Reg_Cross == {r \in Reg_All : /\ \A t \in T : r[t] # {}
-                              /\ \E t, u \in T : r[t] # r[u]
-                              /\ \E t \in T : r[t] = L}
+\* two transforms with different listener sets that overlap: l2 sits on both, l1 on one of them
+Reg_Cross == {r \in Reg_All : (\E t \in T : r[t] = L) /\ (\A t \in T : r[t] \in {L, {"l2"}}) /\ (\E t \in T : r[t] # L)}
 =============================================================================
